@@ -18,7 +18,8 @@ C20_CONFIGS = [
 PLANS = {
     "C01": dict(
         check_forms=["add", "sub", "mul"],
-        mc=[], gen=[], drive=True,
+        mcgen=[dict(model="MC_Arith", quick="MC_Arith_quick.cfg", thorough="MC_Arith_thorough.cfg")],
+        drive=True,
         assumptions=[],
     ),
     "C02": dict(
@@ -30,7 +31,7 @@ PLANS = {
         mcgen=[dict(model="MC_Cmp", quick="MC_Cmp_quick.cfg", thorough="MC_Cmp_thorough.cfg")],
         drive=True,
     ),
-    "C04": dict(drive=True),
+    "C04": dict(drive=True, mcgen=[dict(model="MC_Fmt", quick="MC_Fmt_quick.cfg", thorough="MC_Fmt_thorough.cfg")]),
     "C05": dict(
         mcgen=[dict(model="MC_Parse", quick="MC_Parse_quick.cfg", thorough="MC_Parse_thorough.cfg")],
         drive=True,
@@ -47,18 +48,21 @@ PLANS = {
                 mc=[dict(model="MC_Rem", quick="MC_Rem_quick.cfg", thorough="MC_Rem_thorough.cfg")]),
     "C09": dict(check_forms=["rem"], drive=True,
                 mc=[dict(model="MC_Rem", quick="MC_Rem_quick.cfg", thorough="MC_Rem_thorough.cfg")]),
-    "C10": dict(drive=True),
-    "C11": dict(drive=True),
-    "C12": dict(drive=True, shard=1500),
-    "C13": dict(drive=True),
-    "C14": dict(drive=True, shard=700),
-    "C15": dict(drive=True),
+    "C10": dict(drive=True, mc=[dict(model="MC_Roots", quick="MC_Roots_quick.cfg", thorough="MC_Roots_thorough.cfg")]),
+    "C11": dict(drive=True, mc=[dict(model="MC_Roots", quick="MC_Roots_quick.cfg", thorough="MC_Roots_thorough.cfg")]),
+    "C12": dict(drive=True, shard=1500, mc=[dict(model="MC_Roots", quick="MC_Roots_quick.cfg", thorough="MC_Roots_thorough.cfg")]),
+    "C13": dict(drive=True, mc=[dict(model="MC_Exp", quick="MC_Exp.cfg", workers=6)]),
+    "C14": dict(drive=True, shard=700, mc=[dict(model="MC_Floats", quick="MC_Floats.cfg")]),
+    "C15": dict(drive=True, mc=[dict(model="MC_Floats", quick="MC_Floats.cfg")]),
     "C16": dict(
-        mcgen=[dict(model="MC_Round", quick="MC_Round_quick.cfg", thorough="MC_Round_thorough.cfg")],
+        mcgen=[dict(model="MC_Round", quick="MC_Round_quick.cfg", thorough="MC_Round_thorough.cfg"),
+               dict(model="MC_Fmt", quick="MC_Fmt_quick.cfg", thorough="MC_Fmt_thorough.cfg")],
         drive=True,
     ),
-    "C17": dict(drive=True, shard=1500),
-    "C18": dict(mc=[], gen=[], drive=True),
+    "C17": dict(drive=True, shard=1500,
+                mc=[dict(model="MC_Parse", quick="MC_Parse_c17.cfg", thorough="MC_Parse_c17.cfg"),
+                    dict(model="MC_Fmt", quick="MC_Fmt_c17.cfg", thorough="MC_Fmt_c17.cfg")]),
+    "C18": dict(mcgen=[dict(model="MC_Arith", quick="MC_Arith_quick.cfg", thorough="MC_Arith_thorough.cfg")], drive=True),
     "C20": dict(configs=dict(quick=C20_CONFIGS[:4], thorough=C20_CONFIGS), drive=False, shard=2500),
     "C19": dict(
         check_forms=["add", "sub", "mul"],
